@@ -9,17 +9,19 @@ import (
 )
 
 type file struct {
-	id    string
-	child *file
-	path  string
-	docs  []*Document
+	id       string
+	child    *file
+	loadPath string // path as requested; path may be rewritten to a symlink's target
+	path     string
+	docs     []*Document
 }
 
 func (p *Parser) loadFile(path string, child *file) (*file, error) {
 	f := &file{
-		id:    path,
-		child: child,
-		path:  path,
+		id:       path,
+		child:    child,
+		loadPath: path,
+		path:     path,
 	}
 
 	if child != nil {
@@ -88,6 +90,13 @@ func (p *Parser) loadFile(path string, child *file) (*file, error) {
 }
 
 func (p *Parser) loadFileAndParents(path string, child *file) ([]*file, error) {
+	// A file that is (indirectly) its own parent would recurse forever.
+	for c := child; c != nil; c = c.child {
+		if filepath.Clean(c.loadPath) == filepath.Clean(path) {
+			return nil, fmt.Errorf("%s: $parent: %w", path, ErrCircularRef)
+		}
+	}
+
 	f, err := p.loadFile(path, child)
 	if err != nil {
 		return nil, err
